@@ -29,6 +29,7 @@ ASSUMPTIONS = [
     "is_simple is only required to terminate and return (its truth value is not fixed by the statement)",
     "integer beat units of any size are generated as ints (exact), and as floats up to 2**1023",
     "termination: more than 10**5 traced line events in one predicate call counts as non-termination",
+    "beat units are also given as exact Fraction and Decimal numbers (numeric input that is neither int nor float)",
 ]
 
 STEP_BUDGET = 10 ** 5
@@ -178,7 +179,13 @@ def _bounded(f, *args):
 
 
 def _num(x):
-    """decode a beat unit / count from its JSON-able form (non-finite floats travel as strings)"""
+    """decode a beat unit / count from its JSON-able form (non-finite floats travel as strings; ["frac", n, d] and ["dec", text]
+    are exact rational / decimal numbers)"""
+    if isinstance(x, list):
+        if x[0] == "frac":
+            return Fraction(x[1], x[2])
+        import decimal
+        return decimal.Decimal(x[1])
     return float(x) if isinstance(x, str) else x
 
 
@@ -201,7 +208,11 @@ def _predicate(ctx, name, f, arg):
 
 def check_meter(ctx, case):
     n, d = _num(case[0]), _num(case[1])
-    unit_ok = V.is_power_of_two_unit(d)
+    if isinstance(d, (int, float)):
+        unit_ok = V.is_power_of_two_unit(d)
+    else:  # Fraction / Decimal: exact value
+        fd = Fraction(d)
+        unit_ok = fd.denominator == 1 and V.is_power_of_two_unit(fd.numerator)
     valid = n > 0 and unit_ok
     r = _predicate(ctx, "valid_beat_duration", meter.valid_beat_duration, d)
     if not failed(r):
@@ -213,7 +224,8 @@ def check_meter(ctx, case):
         r = _predicate(ctx, name, getattr(meter, name), m)
         if exp is not None and not failed(r):
             ctx.check(bool(r) == exp, name + "/value", lambda: "%s(%r) -> %r, expected %r" % (name, m, r, exp))
-    nonint = isinstance(d, float) and (d != d or d in (float("inf"), float("-inf")) or d != int(d))
+    nonint = (isinstance(d, float) and (d != d or d in (float("inf"), float("-inf")) or d != int(d))) or \
+        (not isinstance(d, (int, float)) and Fraction(d).denominator != 1)
     big = not nonint and abs(d) >= 2 ** 53
     labels = ["meter:" + ("valid" if valid else "bad-unit" if not unit_ok else "bad-count")]
     if valid:
@@ -275,6 +287,10 @@ BIG_COUNTS = [2 ** 53 + 1, 2 ** 53 + 3, 10 ** 17 + 1, 10 ** 17 + 2, 3 * 2 ** 60,
               -(10 ** 20), 2 ** 64 - 1, 2 ** 64 + 1]
 
 
+EXACT_UNITS = [["frac", a, b] for a in (1, 3, 4, 5, 8, 9, 16, 17, 32, 33, 64, 128) for b in (1, 2, 3, 4, 8)] + \
+    [["dec", t] for t in ("4", "4.0", "4.5", "2.5", "8.75", "0.5", "16", "1", "1.000000000000000000001", "6", "1E+3", "1024")]
+
+
 def sub_meters_enum(ctx, shard, n):
     units = list(range(-64, 4097))
     if ctx.quick:
@@ -282,9 +298,12 @@ def sub_meters_enum(ctx, shard, n):
         key_units = [2 ** k for k in range(13)] + [0, -1, -2, -4, -8, 3, 5, 6, 7, 9, 10, 12, 24, 48, 96, 100, 1000, 4095,
                      2 ** 53, 2 ** 53 + 2, 2 ** 70, 2 ** 70 + 2, 2 ** 100 + 2 ** 40, 2 ** 200]
         cases = [[c, u] for u in units for c in (1, 6, 7)] + [[c, u] for c in COUNTS + BIG_COUNTS for u in key_units]
+        cases += [[c, u] for u in EXACT_UNITS for c in (1, 3, 6, 7, 9)]
         bound = "units -64..4096 x counts {1,6,7}; counts -10..200 x %d units" % len(key_units)
     else:
         cases = [[c, u] for u in units[shard::n] for c in COUNTS + BIG_COUNTS]
+        if shard == 0:
+            cases += [[c, u] for u in EXACT_UNITS for c in COUNTS]
         bound = "units -64..4096 x counts -10..200"
     if shard == 0:
         ctx.exhaustive("meters: integer beat units x counts", bound, len(cases) if ctx.quick else len(units) * len(COUNTS))
